@@ -28,7 +28,7 @@ ASSUMPTIONS = [
 ]
 TRUSTED = ["modelled rather than verified: core/server/udp.go session manager, entry, reply loop, sweeper (hand-written LTS in coq/model/C07_UDPSessions.v); "
            "goroutine exit is observed (synctest bubble exit), the model proves 'no program counter left running'"]
-PER_SHARD = 30
+PER_SHARD = 15
 EXTRA_TARGETS = ["corr/C07_Corr.vo"]
 INTERVAL = 1000
 
@@ -359,7 +359,7 @@ LEVEL_TEXT = ("Machine-checked Coq theorems over a hand-written labelled transit
               "atomic sections (table lookup/insert/delete under m.mutex, initConn and CloseWithErr part 1 under connLock, Last stores, every "
               "call on udpIO / UDPConn / logger, ticker, clock): for every action sequence (= every interleaving of receive loop, reply loops "
               "and sweeper, every fault choice and every passage of time) the theorems of props/C07.v hold. The LTS is tied to /repo on every "
-              "run by replaying ~65 recorded boundary logs of the real session manager (testing/synctest, fake clock, injected faults, "
+              "run by replaying ~70 recorded boundary logs of the real session manager (testing/synctest, fake clock, injected faults, "
               "unsynchronised bursts) against it inside the kernel.")
 LEVEL_NOTE = ("Trusted: Coq kernel + vm_compute; hand-written LTS (tie is sampled trace acceptance + regenerated Params); python/Go glue. "
               "No axioms. Not proved: real time.Ticker accuracy (theorems are relative to tick times); goroutine exit is observed by synctest, "
